@@ -172,6 +172,33 @@ var vSProgs = []vSProg{
 		}
 		return res
 	}},
+	// three levels: through a set of sets (the union over all paths)
+	{`anyOf(reports.reports.s) = "x"`, "bs", func(p *vPop, e *vPerson) bool {
+		res := false
+		for _, r1 := range p.reports(e) {
+			for _, r2 := range p.reports(r1) {
+				res = verifrt.Or(res, sEq(r2.S, "x"))
+			}
+		}
+		return res
+	}},
+	{`allOf(reports.reports.s) = "x"`, "bs", func(p *vPop, e *vPerson) bool {
+		res := true
+		for _, r1 := range p.reports(e) {
+			for _, r2 := range p.reports(r1) {
+				res = verifrt.And(res, sEq(r2.S, "x"))
+			}
+		}
+		return res
+	}},
+	{`isEmpty(reports.reports)`, "b", func(p *vPop, e *vPerson) bool {
+		for _, r1 := range p.reports(e) {
+			if len(p.reports(r1)) > 0 {
+				return false
+			}
+		}
+		return true
+	}},
 	// sub-queries
 	{`isEmpty(from reports where s = "x")`, "bs", func(p *vPop, e *vPerson) bool {
 		any := false
@@ -300,6 +327,6 @@ func verifC01Store(progs []vSProg) {
 
 func VerifC01_SetFunctions() { verifC01Store(vSProgs[:12]) }
 func VerifC01_StoreScalarsAndLinks() {
-	verifC01Store(vSProgs[12:28])
+	verifC01Store(vSProgs[12:31])
 }
-func VerifC01_MapElements() { verifC01Store(vSProgs[28:]) }
+func VerifC01_MapElements() { verifC01Store(vSProgs[31:]) }
